@@ -183,6 +183,9 @@ def run_cases(ctx, cases, use_model=True, procs=8):
             if out['raise'].startswith('AssertionError') and case['opts'].get('diag_method') == 'arpack' \
                     and 'npc_to_flat' in out.get('tb', ''):
                 sig += '.arpack.zero-matvec-result'
+            if out['raise'].startswith('ArpackError') and case['opts'].get('diag_method') == 'arpack' \
+                    and 'Starting vector is zero' in out['raise']:
+                sig += '.arpack.starting-vector-zero'
             res.fail('property', sig, out['raise'] + '\n' + out.get('tb', ''), case)
             continue
         if case['part'] in ('dmrg', 'converge'):
